@@ -418,8 +418,12 @@ class Parser:
                 self.eat()
                 vals = []
                 for f in self.structs[name][1]:
-                    self.eat("id", f); self.eat("op", ":")
-                    vals.append(self.expr())
+                    self.eat("id", f)
+                    if self.at(":"):
+                        self.eat("op", ":")
+                        vals.append(self.expr())
+                    else:
+                        vals.append(f)             # field init shorthand `Name { f, … }`
                     if self.at(","):
                         self.eat()
                 self.eat("op", "}")
@@ -666,14 +670,14 @@ class StmtParser(Parser):
         rho = self.opts.get("ret_type")
         if not rho:
             raise TranslateError("job without ret_type")
-        if self.opts.get("ret_ctor"):
+        self.fn_both = bool(self.opts.get("ret_both"))     # result = (state built by ret_ctor, value)
+        if self.opts.get("ret_ctor") and not self.fn_both:
             self.fn_unit = True
             env = Env(muts, self.unit_value(), None, lambda v: v, rho)
         else:
-            if muts:
-                raise TranslateError("`&mut` parameters need a ret_ctor")
+            # a function with a result; `mut` by-value parameters are plain local mutable variables
             self.fn_unit = False
-            env = Env([], None, lambda v: v, lambda v: v, rho)
+            env = Env(muts, None, lambda v: self.fn_value(v), lambda v: v, rho)
         term = self.sblock(env)
         if self.peek()[0] != "eof":
             raise TranslateError("trailing tokens after function body")
@@ -690,6 +694,8 @@ class StmtParser(Parser):
             return self.unit_value()
         if v is None:
             raise TranslateError("`return;` in a function with a result")
+        if self.fn_both:
+            return "(%s, %s)" % (self.unit_value(), v)
         return v
 
     # ---- blocks
@@ -730,10 +736,21 @@ class StmtParser(Parser):
             if self.opts.get("debug_assert") != "skip":
                 raise TranslateError("debug_assert! without an explicit choice of the job")
             self.eat()
+            a = self.i
             self.skip_macro_args()
+            toks = self.t[a + 2:self.i - 1]
+            # `debug_assert!(!X.is_empty())`: the source's own claim that X has an element, used as a length guard
+            if (len(toks) >= 6 and toks[0] == ("op", "!") and toks[-4:] == [("op", "."), ("id", "is_empty"), ("op", "("), ("op", ")")]):
+                sub = Parser(toks[1:-4], self.paths, self.funcs, self.structs, self.opts)
+                x = sub.postfix()
+                if sub.peek()[0] == "eof":
+                    self.minlen[x] = max(self.minlen.get(x, 0), 1)
             return self.sstmts(env)
         if self.at("let"):
             return self.let_stmt(env)
+        m = self.mut_method(env)
+        if m is not None:
+            return m
         if self.at("return"):
             self.eat()
             v = None if (self.at(";") or self.at("}") or self.at(",")) else self.expr()
@@ -785,6 +802,47 @@ class StmtParser(Parser):
         if env.tail is None:
             raise TranslateError("trailing expression where no value is expected: %s" % e[:60])
         return env.tail(e)
+
+    def closure_param_call(self, env):
+        """`f(&mut X)` with `f` a closure parameter of the function and X a live mutable variable: per job, the closure is a
+        function from the old value of X to (new value, result); returns (X, term of the call) or None"""
+        fp = self.opts.get("fn_params", {})
+        if not (self.peek()[0] == "id" and self.peek()[1] in fp and self.peek(1) == ("op", "(") and self.peek(2) == ("op", "&")
+                and self.peek(3) == ("id", "mut") and self.peek(4)[0] == "id" and self.peek(4)[1] in env.names()
+                and self.peek(5) == ("op", ")")):
+            return None
+        f, x = self.peek()[1], self.peek(4)[1]
+        for _ in range(6):
+            self.eat()
+        return f, x
+
+    def mut_method(self, env):
+        """statements that update one live mutable variable in place: `X.push(e);`, `X.m(args);` for a job-listed method,
+        `f(&mut X);` for a closure parameter"""
+        c = self.closure_param_call(env)
+        if c is not None:
+            f, x = c
+            self.eat("op", ";")
+            spec = self.opts["fn_params"][f]
+            r = self.gensym("r")
+            return "let %s := (%s %s)\nlet %s := %s\n%s" % (r, f, x, x, spec["state"].format(r=r, x=x), self.sstmts(env))
+        if not (self.peek()[0] == "id" and self.peek()[1] in env.names() and self.peek(1) == ("op", ".")
+                and self.peek(2)[0] == "id" and self.peek(3) == ("op", "(")):
+            return None
+        x, m = self.peek()[1], self.peek(2)[1]
+        typ = dict(env.muts)[x]
+        if m == "push" and typ.startswith("List "):
+            fn = "{0} ++ [{1}]"           # Vec::push = append at the end
+        elif m in self.opts.get("mut_methods", {}):
+            fn = self.opts["mut_methods"][m]
+        else:
+            return None
+        for _ in range(3):
+            self.eat()
+        args = self.args()
+        self.end_of_stmt()
+        val = fn.format(x, *args) if "{" in fn else "(%s %s)" % (fn, " ".join([x] + args))
+        return "let %s := (%s)\n%s" % (x, val, self.sstmts(env))
 
     def try_assign(self, env):
         """`[*]x = e`, `[*]x += e` (also - * /) on a live mutable variable"""
@@ -840,6 +898,15 @@ class StmtParser(Parser):
             while not self.at("="):
                 self.eat()
         self.eat("op", "=")
+        c = self.closure_param_call(env)
+        if c is not None:
+            f, x = c
+            self.eat("op", ";")
+            spec = self.opts["fn_params"][f]
+            r = self.gensym("r")
+            self.check_fresh(env, names)
+            return ("let %s := (%s %s)\nlet %s := %s\nlet %s := %s\n%s"
+                    % (r, f, x, pat, spec["value"].format(r=r, x=x), x, spec["state"].format(r=r, x=x), self.sstmts(env)))
         e = self.expr()
         if e == "⟪ARRAYMAP⟫":
             if len(names) != 1:
@@ -1083,6 +1150,23 @@ class StmtParser(Parser):
             self.eat()
         x = self.eat("id")[1]
         self.eat("id", "in")
+        if (self.at("&") and self.peek(1) == ("id", "mut") and self.peek(2)[0] == "id" and self.peek(2)[1] in env.names()
+                and self.peek(3) == ("op", "{")):
+            # `for x in &mut C { … }`: the body updates the element in place (and nothing else): C := C.map (x ↦ body x)
+            self.eat(); self.eat()
+            c = self.eat("id")[1]
+            ctyp = dict(env.muts)[c]
+            if not ctyp.startswith("List "):
+                raise TranslateError("`for … in &mut %s` on a non-list" % c)
+            etyp = ctyp[5:].strip()
+            if etyp.startswith("(") and etyp.endswith(")"):
+                etyp = etyp[1:-1]
+            self.check_fresh(env, [x])
+
+            def no_return(v):
+                raise TranslateError("`return` inside an in-place loop")
+            body = self.sblock(Env([(x, etyp)], x, None, no_return, etyp))
+            return "let %s := List.map (fun (%s : %s) => %s) %s\n%s" % (c, x, etyp, par(body), c, self.sstmts(env))
         it = self.expr()
         self.check_fresh(env, [x])
         # does the body return from the function?
@@ -1135,7 +1219,18 @@ def indent(term, n=2):
 def translate_fn(src, header_regex, paths, funcs, subst, structs=None, resub=(), opts=None):
     """a whole function of the statement fragment"""
     body = fn_body(src, header_regex)
-    p = StmtParser(tokenize(body), paths, funcs, structs, opts)
+    toks = tokenize(body)
+    # `places`: a field of `&mut self` that the function updates is one mutable variable, e.g. `self.exterior` -> `self_exterior`
+    for place, var in (opts or {}).get("places", {}).items():
+        pt = tokenize(place)
+        out, i = [], 0
+        while i < len(toks):
+            if toks[i:i + len(pt)] == pt:
+                out.append(("id", var)); i += len(pt)
+            else:
+                out.append(toks[i]); i += 1
+        toks = out
+    p = StmtParser(toks, paths, funcs, structs, opts)
     term = p.function()
     return indent(apply_subst(term, subst, resub))
 
